@@ -5,8 +5,7 @@ CONSTANTS
   KeySet = {1, 2, 3, 4}
   ValSet = {1, 2, 3}
   HashVals = {}
-  IntKeys = {}
-  NegKeys = {}
+  RKeys = {}
   ShardCounts = {1, 2, 3, 4, 5}
 INVARIANTS TypeOK RouterInRange Equiv OneHome
 PROPERTIES ReadOnly
